@@ -137,6 +137,8 @@ class EpState:
         self.auth = []         # packets authenticated during the current API call
         self.pre = {}
         self.unclassified = []
+        self.seen_pn = set()   # (space, packet number) of every packet that authenticated
+        self.delivered = []    # datagrams handed to receive_datagram, in order
 
 
 class CloseMonitor:
@@ -231,6 +233,7 @@ class CloseMonitor:
 
         def initialize(peer_cid):
             st.sub.append(["init"])
+            st.seen_pn.clear()      # new attempt (Retry / Version Negotiation): fresh packet number spaces
             res = orig_init(peer_cid)
             st.rec.spaces_replaced()
             return res
@@ -299,8 +302,18 @@ class CloseMonitor:
         st.built.append((epoch, frames))
 
     def on_packet_authenticated(self, sim, ep, epoch, pn, header, payload):
+        """wire-level fact: a packet authenticated; it is a DUPLICATE when the same
+        (packet number space, packet number) authenticated before"""
         st = self.eps[ep.name]
-        st.auth.append((epoch, S.parse_payload(payload)))
+        space = "ONE_RTT" if epoch == "ZERO_RTT" else epoch
+        dup = (space, pn) in st.seen_pn
+        st.seen_pn.add((space, pn))
+        st.auth.append((epoch, S.parse_payload(payload), pn, dup))
+        if st.in_api == "receive_datagram":
+            st.sub.append(["auth", epoch, pn, dup])
+
+    def on_datagram_delivered(self, sim, ep, d, addr):
+        self.eps[ep.name].delivered.append(dict(d))
 
     def before_api(self, sim, ep, name, args, kw):
         st = self.eps[ep.name]
@@ -429,6 +442,15 @@ class CloseMonitor:
                 if pending_init:
                     toks.append("drop")
                 pending_init = True
+                i += 1
+            elif k == "auth":
+                # harness-derived: a packet whose (space, pn) authenticated before is a
+                # duplicate -> the model's dropped packet (never re-arms anything); an
+                # `_idle_timeout()` call right after it belongs to no modelled statement
+                if sub[i][3]:
+                    toks.append("dup")
+                    if i + 1 < n and sub[i + 1][0] == "idle":
+                        i += 1
                 i += 1
             elif k == "vn":
                 _, ours, common = sub[i]
